@@ -271,5 +271,5 @@ def run_shard(ctx):
             ctx.stats.excluded[k] += n
         cl = ['languages:%d' % min(nlang, 3)] + (['nested'] if m.nested else []) + (['threshold-claims'] if nclaims else [])
         ctx.stats.case(key=src, nontrivial=nt, classes=cl, n=2,
-                       sample={'src': src, 'threshold': doc[1]} if nt and ctx.stats.evaluations % 600 == 0 else None)
+                       sample={'src': src, 'threshold': doc[1]})
     hyp_run(ctx, doc_s, one, ctx.n(20000, 400000))
